@@ -7,9 +7,11 @@ Proof obligations: lean/RtcVerif/Props/C13.lean.  Correspondence:
   several aliases per quantity, `-name` keys) under random operation sequences against the Lean
   operation machine (Drivers/C13.lean); exhaustive for all sequences up to a length over three
   names with signs;
-* generated Modelica models with negated aliases and non-unit nominals (harness/c13_models.py):
-  `bounds()`, `variable_nominal()`, `history()`, `seed()`, `extract_results()`, `state_at()` in
-  optimisation and `get_var/set_var` sequences in simulation.
+* generated Modelica models with negated alias chains, non-unit nominals and a history with several
+  points before t0 (harness/c13_models.py): `bounds()`, `variable_nominal()`, `history()`,
+  `seed()`, `extract_results()`, state goals, and the accessors `state_at / der_at / states_in /
+  integral` (before t0, at t0, inside the horizon; as CasADi functions of X at several probe
+  vectors) in optimisation, and `get_var/set_var` sequences in simulation.
 
 Independent oracle: quantities are identified by a union-find with sign parity built from the
 generator's own alias equations (never from `canonical_signed`); the value seen through a name is
@@ -555,7 +557,8 @@ def run(c):
         "(set/get/del/contains/len/keys/values/items/update/setdefault/get-default/copy/swap) over value kinds "
         "number (incl. 0, 1, nan, +-inf), bound pair (floats and Timeseries), list, ndarray, Timeseries, "
         "malformed tuple; all sequences of a fixed length over three names (exhaustive stream); generated "
-        "Modelica models with negated alias chains and non-unit nominals in optimisation and simulation.  "
+        "Modelica models with negated alias chains, non-unit nominals and multi-point histories in optimisation "
+        "(dictionaries, state goals, accessors before/at/after t0 at 3 probe vectors) and simulation.  "
         "distinct = (stream, signedness, length, op kinds, error pattern) resp. (model shape, observable) tuples"
     )
     c.assumptions = [
@@ -580,12 +583,56 @@ def run(c):
                    "is carried by the theorems")
 
 
+def from_wire(w):
+    from rtctools.optimization.timeseries import Timeseries
+    from .common import unfr
+
+    def num(x):
+        return float(unfr(x))
+
+    def atom(a):
+        if a["k"] == "num":
+            return num(a["v"])
+        return Timeseries(np.array([num(t) for t in a["t"]]), np.array([num(v) for v in a["v"]]))
+
+    if w["k"] == "tup":
+        return tuple(atom(a) for a in w["v"])
+    if w["k"] == "list":
+        return [atom(a) for a in w["v"]]
+    return atom(w)
+
+
 def replay(c, rp):
+    """re-runs the recorded AliasDict cases (real code, oracle, model); prints model-based cases"""
     from rtctools._internal.alias_tools import AliasRelation
 
     c.prove()
     todo = [f for f in rp.get("failures", []) + rp.get("correspondence_disagreements", []) + rp.get("disagreements", []) if f]
+    cases = []
     for f in todo:
+        case = f["case"]
         print("replaying:", f["what"])
-        print("  case:", f["case"])
-    stream_exhaustive(c, 2)
+        if not isinstance(case, dict) or "ops" not in case or "rel" not in case:
+            print("  case:", case.get("model", case) if isinstance(case, dict) else case)
+            continue
+        ar, uf = AliasRelation(), SignedUF()
+        names = sorted({row[0] for row in case["rel"] if not row[0].startswith("-")})
+        for key, canon, sign in case["rel"]:
+            if not key.startswith("-") and key != canon:
+                other = ("-" if sign < 0 else "") + canon
+                if uf.union(key, other):
+                    ar.add(key, other)
+        ops = []
+        for w in case["ops"]:
+            op = {"o": w["o"]}
+            if "k" in w:
+                op["k"] = w["k"]
+            if "v" in w:
+                op["pv"] = from_wire(w["v"])
+            if "kvs" in w:
+                op["pkvs"] = [(k, from_wire(v)) for k, v in w["kvs"]]
+            ops.append(op)
+        cases.append((ar, names, uf, case["signed"], ops, None))
+    if cases:
+        run_sequences(c, cases, "replay")
+    print("replayed %d dictionary case(s): %d failure(s), %d disagreement(s)" % (len(cases), len(c.failures), len(c.disagreements)))
